@@ -8,6 +8,10 @@ the default schedule with the MUTATING jobs (advance_block, backup_block, flush_
 point k, a burst of client requests is injected and served to completion - event-loop callbacks
 and any other jobs run, the sliced job stays where it is - before the job continues.  k ranges
 over every slice point of every mutating job of the scenario.
+
+Split mode (two threads really interleaved): the first read job R started by the injected
+requests is itself stopped after i of its own slices, the mutating job(s) go on for b more slice
+points, and only then does R finish - a read torn by the mutation.  (k, i, b) are enumerated.
 '''
 from vf.common import Broken
 from vf.sliced import SlicedRunner
@@ -27,11 +31,16 @@ class SlicedRun:
         self.injected_at = None
         self.after = None
 
-    def run(self, k, inject, after=None):
+    def run(self, k, inject, after=None, split=None):
         '''Returns True if slice point k exists (the requests were injected).  after(system) is
-        called once the injected burst has been served.'''
+        called once the injected burst has been served.  split=(i, b): see the module text;
+        self.split_hit tells whether a read job really was stopped after i slices.'''
         s = self.s
         self.after = after
+        self.split = split
+        self.parked = None
+        self.split_hit = False
+        self.resume_point = None
         runner = SlicedRunner(s)
         try:
             for ev in self.script:
@@ -59,7 +68,10 @@ class SlicedRun:
                 raise Broken('sliced system does not go idle')
             if s.loop.step_ready():
                 continue
-            active = runner.active()
+            if self.parked is not None and self.points >= self.resume_point:
+                self._finish_parked(runner)
+                continue
+            active = [x for x in runner.active() if x is not self.parked]
             if active:
                 sj = active[0]
                 name = getattr(sj.job.func, '__name__', '')
@@ -68,13 +80,26 @@ class SlicedRun:
                         self.injected_at = (name, (sj.last_op or ('start',))[0], sj.slices)
                         inject(s)
                         # serve the requests to completion; the mutating job does not move
+                        first, steps = None, 0
                         while True:
                             if s.loop.step_ready():
                                 continue
-                            others = [x for x in runner.active() if x is not sj]
+                            others = [x for x in runner.active()
+                                      if x is not sj and x is not self.parked]
                             if not others:
                                 break
-                            runner.step(others[0])
+                            o = others[0]
+                            if self.split and self.parked is None and first in (None, o):
+                                first = o
+                                if steps == self.split[0]:
+                                    # R has made i slices and is not finished: it waits
+                                    self.parked = o
+                                    self.split_hit = True
+                                    self.resume_point = self.points + self.split[1]
+                                    continue
+                                steps += 1
+                            if runner.step(o) == 'done' and o is first:
+                                first = False       # finished before its i-th slice
                         self.trace.append(f'inject@{name}:{self.injected_at[1]}')
                         if self.after:
                             self.after(s)
@@ -87,7 +112,57 @@ class SlicedRun:
             if pend:
                 s.daemon.deliver(pend[0])
                 continue
+            if self.parked is not None:
+                self._finish_parked(runner)
+                continue
             return
+
+    def _finish_parked(self, runner):
+        sj, self.parked = self.parked, None
+        runner.run_to_completion(sj)
+        self.trace.append('J:(torn read finished)')
+
+
+def enumerate_splits(make, script_of, inject, judge, res, label, closing_ticks=10, only=None,
+                     i_max=4, b_set=(1, 2, 3, 5, 8), max_points=600):
+    """Split mode over every (k, i, b): [(k, i, b), key, detail] for the failing ones."""
+    found = []
+    todo = [tuple(only)] if only is not None else None
+    k = 0
+    while True:
+        any_hit = False
+        for i in range(1, i_max + 1):
+            hit_i = False
+            for b in b_set:
+                if todo is not None:
+                    k, i, b = todo[0]
+                s = make()
+                try:
+                    run = SlicedRun(s, script_of(s), closing_ticks=closing_ticks)
+                    hit = run.run(k, inject, split=(i, b))
+                    if hit:
+                        any_hit = True
+                    if hit and run.split_hit:
+                        hit_i = True
+                        res.count('torn_read_executions')
+                        for key, detail in judge(run)[:1]:
+                            found.append(((k, i, b), key, dict(detail, slice_point=k, read_slices=i,
+                                                              mutation_slices=b,
+                                                              site=list(run.injected_at))))
+                finally:
+                    s.close()
+                if todo is not None:
+                    return found
+                if not (hit and run.split_hit):
+                    break
+            if not hit_i:
+                break
+        if not any_hit:
+            break
+        k += 1
+        if k > max_points:
+            raise Broken(f'more than {max_points} slice points in {label}')
+    return found
 
 
 def enumerate_points(make, script_of, inject, judge, res, label, closing_ticks=10, only_k=None,
